@@ -2,6 +2,8 @@ package main
 
 import (
 	"fmt"
+	"os"
+	"regexp"
 	"strings"
 	"time"
 
@@ -15,6 +17,8 @@ type driverMon struct {
 	extra []string
 }
 
+var oomInGeneratedDecode = regexp.MustCompile(`(?s)(out of memory|makeslice: (len|cap) out of range).*?\._(List|Set|Map)_\w+_Decode\(`)
+
 // afterBuild, when set, sees every program of a batch after generation and
 // compilation (static checks of a property that needs more than the driver).
 var afterBuild func(b *genlab.Batch, pr *genlab.Prog)
@@ -23,10 +27,25 @@ var afterBuild func(b *genlab.Batch, pr *genlab.Prog)
 // driver per batch and runs the given monitors inside it.
 func runDrivers(r *core.Run, thriftrw, stream string, nProgs, batch uint64, buildFlags []string, env []string, mons []driverMon) {
 	off := offSet(r)
+	if r.HasOpen("KF-C13-1") && r.Property != "C13" {
+		// While C13's finding on generated streaming container deserializers is
+		// open, an input that slips through the routing filter can make generated
+		// code ask for gigabytes; children run under a memory limit and such a
+		// death is C13's (counted), not this property's verdict.
+		r.CrossRoute = func(stderr string) (string, bool) {
+			if oomInGeneratedDecode.MatchString(stderr) {
+				return "routed_to_C13_after_out_of_memory", true
+			}
+			return "", false
+		}
+	}
 	for from := uint64(0); from < nProgs; from += batch {
 		to := from + batch
 		if to > nProgs {
 			to = nProgs
+		}
+		if ob := os.Getenv("VERIF_ONLY_BATCH"); ob != "" && ob != fmt.Sprint(from) {
+			continue // debugging aid: one batch only
 		}
 		spec := genlab.NamedSpec(stream, off, from, to)
 		b := genlab.Generate(r, thriftrw, fmt.Sprintf("%s-%d", stream, from), spec)
